@@ -108,8 +108,18 @@ class Sim:
                 self.logon_seen[dst] = True
         elif k == "brk":
             self.nbreak += 1
+            nd0 = {x: w.side(x).c.n_disconnect for x in "AB"}
             w.brk(ev[1])
             self.logon_seen = {"A": False, "B": False}
+            if not w.livelock:
+                for x in "AB":
+                    c = w.side(x).c
+                    if pre_state[x] not in ("DISCONNECTED_NOCONN_TODAY", "DISCONNECTED_WCONN_TODAY", "DISCONNECTED_BROKEN_CONN") and \
+                            (c.connection_state.value > 3 or c.n_disconnect - nd0[x] != 1):
+                        self.dead = True
+                        return self._v("break_not_noticed", f"brk:{ev[1]}:{pre_state[x]}",
+                                       "a connection break is seen by each end (which is then disconnected, once, and able to reconnect)", ev,
+                                       side=x, disconnect_reports=c.n_disconnect - nd0[x])
         elif k == "rec":
             w.connect()
             self.nconn += 1
